@@ -388,6 +388,32 @@ def number_rules(chk, m, rid):
                    % (fname, [str(t) or '<register>' for t in stream], S, ', optional-space flags' if optspace is not None else '',
                       sorted(got, key=repr), w), chk.where(fn))
 
+    # the digit collector itself: digits come from the *expanded* stream (a digit produced by a macro counts)
+    import string as _string
+    seqfn = m.find_method(TeX, 'readSequence')
+    need(seqfn is not None, 'TeX.readSequence not found')
+    chk.analysed(seqfn)
+    MAC = A.TokStr('', nodeType=1, catcode=0, param=False, nodeName='two')          # an unexpanded macro whose expansion is "2"
+    ELEM = A.TokStr('', nodeType=1, catcode=0, param=False, nodeName='relax')
+    for label, expanded, raw, optspace, want, pushed in (
+            ('digits up to a letter', [ch('1'), ch('2'), ch('x', 11)], None, True, '12', ('x',)),
+            ('a digit produced by a macro counts', [ch('1'), ch('2'), ch('x', 11)], [ch('1'), MAC, ch('x', 11)], True, '12', ('x',)),
+            ('one optional space is absorbed', [ch('7'), ch(' ', 10), ch('x', 11)], None, True, '7', ()),
+            ('no space is absorbed when not allowed', [ch('7'), ch(' ', 10)], None, False, '7', (' ',)),
+            ('a control sequence ends the number and stays', [ch('4'), ELEM], None, True, '4', ('',)),
+            ('no digit at all gives the default', [ch('x', 11)], None, True, 'DEFAULT', ('x',))):
+        h = TokenStreamHooks(m, TeX, expanded, raw if raw is not None else expanded)
+        h.keep = lambda ev: ev[0] == 'call' and ev[1] in ('self.pushToken', 'self.pushTokens')
+        it = A.Interp(model=m, scope=seqfn, hooks=h, max_iter=len(expanded) + 2, exc_edges=False)
+        outs = it.run_function(seqfn, env={'chars': _string.digits, 'optspace': optspace, 'default': 'DEFAULT'})
+        got = set()
+        for kind, s2, v in outs:
+            back = tuple(str(a) for e in s2.trace for a in e[2] if isinstance(a, str))
+            got.add((kind, repr(str(v)) if isinstance(v, str) else repr(v), back))
+        chk.decide(R, 'readSequence: %s' % label, got, {('return', repr(want), tuple(pushed))},
+                   'collecting digits from %s gives (outcome, text, tokens pushed back) %s; expected %r with %s pushed back'
+                   % ([str(t) or '<control sequence>' for t in expanded], sorted(got), want, list(pushed)), chk.where(seqfn))
+
     # unit tables of the stretch / shrink components
     dimen = m.cls('plasTeX', 'dimen')
     mudimen = m.cls('plasTeX', 'mudimen')
